@@ -240,3 +240,69 @@ Fixpoint wf (v : bval) : bool :=
   | BList l => forallb wf l
   | BDict m => keys_sorted (map fst m) && forallb (fun kv => wf (snd kv)) m
   end.
+
+(** ** Beyond the canonical domain: dict entries in any order.  [norm] sorts every dict by
+    key (what [decode] returns for what [encode] emits); [dkeys] asks that the keys of each
+    dict are pairwise distinct byte strings and that no nil occurs. *)
+Definition val_lt (a b : bytes * bval) : bool := str_ltb (fst a) (fst b).
+Definition sort_vals (l : list (bytes * bval)) : list (bytes * bval) := Sort.sort val_lt l.
+
+Fixpoint norm (v : bval) : bval :=
+  match v with
+  | BList l => BList (map norm l)
+  | BDict m => BDict (sort_vals (map (fun kv => (fst kv, norm (snd kv))) m))
+  | _ => v
+  end.
+
+Fixpoint distinctb (l : list bytes) : bool :=
+  match l with
+  | [] => true
+  | x :: t => negb (existsb (str_eqb x) t) && distinctb t
+  end.
+
+Fixpoint dkeys (v : bval) : bool :=
+  match v with
+  | BNil => false
+  | BInt _ | BStr _ => true
+  | BList l => forallb dkeys l
+  | BDict m => distinctb (map fst m) && forallb (fun kv => dkeys (snd kv)) m
+  end.
+
+(** ** What [encode] accepts from Lisp: strings, keywords and symbols are written as the
+    UTF-8 bytes of their text, vectors and lists as lists, map keys likewise. *)
+Definition utf8_char (c : N) : bytes :=
+  if c <? 128 then [c]
+  else if c <? 2048 then [192 + c / 64; 128 + c mod 64]
+  else if c <? 65536 then [224 + c / 4096; 128 + (c / 64) mod 64; 128 + c mod 64]
+  else [240 + c / 262144; 128 + (c / 4096) mod 64; 128 + (c / 64) mod 64; 128 + c mod 64].
+Definition utf8 (s : str) : bytes := flat_map utf8_char s.
+
+Definition qual (ns : option str) (nm : str) : str :=
+  match ns with Some n => n ++ 47 :: nm | None => nm end.
+
+Inductive lkey := LKStr (s : str) | LKKw (ns : option str) (nm : str) | LKSym (ns : option str) (nm : str).
+Inductive lval :=
+| LInt (z : Z)
+| LBytes (b : bytes)
+| LStr (s : str)
+| LKw (ns : option str) (nm : str)
+| LSym (ns : option str) (nm : str)
+| LVec (l : list lval)
+| LList (l : list lval)
+| LMap (m : list (lkey * lval)).
+
+Definition lkey_bytes (k : lkey) : bytes :=
+  match k with LKStr s => utf8 s | LKKw ns nm | LKSym ns nm => utf8 (qual ns nm) end.
+
+(** the bencode value a Lisp value is written as (dict entries in the map's own order;
+    [encode] sorts them) *)
+Fixpoint inj (x : lval) : bval :=
+  match x with
+  | LInt z => BInt z
+  | LBytes b => BStr b
+  | LStr s => BStr (utf8 s)
+  | LKw ns nm | LSym ns nm => BStr (utf8 (qual ns nm))
+  | LVec l | LList l => BList (map inj l)
+  | LMap m => BDict (map (fun kv => (lkey_bytes (fst kv), inj (snd kv))) m)
+  end.
+Definition encode_l (x : lval) : bytes := encode (inj x).
